@@ -432,4 +432,56 @@ theorem setLimit_inv {cfg : Cfg} {hs : Hashes} {s : St} (h : Inv cfg hs s) (d : 
     · exact this
     · exact this
 
+/-- the asset record after `setDeputy` -/
+def redeputy (a : Asset) (dep : Addr) : Asset := { a with deputy := dep }
+
+theorem getAsset_setDeputy (l : List (Denom × Asset)) (d : Denom) (dep : Addr) (d' : Denom) :
+    getAsset (l.map (fun da => if da.1 = d then (da.1, redeputy da.2 dep) else da)) d' =
+      (getAsset l d').map (fun a => if d' = d then redeputy a dep else a) := by
+  induction l with
+  | nil => rfl
+  | cons x xs ih =>
+    obtain ⟨dx, ax⟩ := x
+    simp only [List.map_cons]
+    by_cases h1 : dx = d
+    · simp only [h1, ite_true]
+      by_cases h2 : d = d'
+      · subst h2; simp [getAsset]
+      · have h2' : ¬ d' = d := fun e => h2 e.symm
+        simp only [getAsset, h2, ite_false]
+        rw [ih]
+    · simp only [h1, ite_false]
+      by_cases h2 : dx = d'
+      · subst h2; simp [getAsset, h1]
+      · simp only [getAsset, h2, ite_false]
+        rw [ih]
+
+theorem setDeputy_assets (s : St) (d : Denom) (dep : Addr) :
+    (setDeputy s d dep).assets =
+      s.assets.map (fun da => if da.1 = d then (da.1, redeputy da.2 dep) else da) := rfl
+
+/-- the asset of denomination `d'` after a deputy rotation: the same record, possibly with another deputy -/
+theorem getAsset_after_setDeputy (s : St) (d : Denom) (dep : Addr) (d' : Denom) :
+    getAsset (setDeputy s d dep).assets d' =
+      (getAsset s.assets d').map (fun a => if d' = d then redeputy a dep else a) := by
+  rw [setDeputy_assets, getAsset_setDeputy]
+
+/-- a deputy rotation is a frame step: it touches nothing but the asset parameter -/
+theorem setDeputy_inv {cfg : Cfg} {hs : Hashes} {s : St} (h : Inv cfg hs s) (d : Denom) (dep : Addr) :
+    Inv cfg hs (setDeputy s d dep) := by
+  refine inv_frame h (setDeputy s d dep) rfl rfl rfl (Nat.le_refl _) ?_
+    (fun _ => rfl) (fun _ => rfl) (fun _ => rfl) (fun _ => rfl)
+  intro d' a ha
+  rw [getAsset_after_setDeputy] at ha
+  cases hg : getAsset s.assets d' with
+  | none => rw [hg] at ha; cases ha
+  | some a0 =>
+    rw [hg] at ha
+    simp only [Option.map_some] at ha
+    have := h.pmin d' a0 hg
+    cases ha
+    split
+    · exact this
+    · exact this
+
 end KV.Bep3
